@@ -47,9 +47,10 @@ CLAIMED = {
         "Theorems in Properties/C16.v, for every history, learning rate, delta and every rsqrt oracle: "
         "OGD and diagonal-AdaGrad iterates equal their closed forms; every sketched method's last "
         "sketch row has eigenvalue zero; alpha_T = delta + f*sum rho_t^2; in the lossless case alpha "
-        "stays delta and the sketch equals the exact covariance (C09), each direction being scaled by "
-        "the factor that inverts delta+s_i (_partial: the matrix-level identity X X (delta I + C) = I "
-        "is decided at run time by a certificate, not proved). Tie: generate_init_update under x64 for "
+        "stays delta and the sketch equals the exact covariance (C09), and S-AdaGrad's preconditioner "
+        "X = Fm + rsqrt(delta)(I - Pi) satisfies X X (delta I + C) = I in every matrix algebra given the "
+        "projector relations of an orthonormal sketch (c16_sada_lossless_is_full_adagrad); at run "
+        "time the same identity is decided by a certificate. Tie: generate_init_update under x64 for "
         "all six algorithms; chk_ogd / chk_ada / chk_oco / chk_full evaluated in Coq on exact dyadics.",
         "Trusted: Coq kernel + vm_compute; no axioms. rsqrt/reciprocal/sqrt/SVD are oracles (values "
         "checked against their specs to 2^-40 before use). Uniqueness of the PSD inverse square root is "
